@@ -399,7 +399,7 @@ def finish(ctx, coverage, assumptions, level="model_checking"):
                           f, ensure_ascii=False, indent=1)
             print("VIOLATION property=%s replay=%s" % (ctx.pid, path))
             log("  -> %s: %s (%d cases)" % (sig, vs[0]["what"], len(vs)))
-        coverage["new_violation_signatures"] = [s for s, _ in new[:50]]
+        coverage["new_violation_signatures"] = [s for s, _ in new[:400]]
     write_evidence(ctx, level, coverage, assumptions, len(new))
     log("[%s] tier=%s seed=%d wall=%.1fs states=%d verdict=%s" % (
         ctx.pid, ctx.tier, ctx.seed, ctx.wall(), ctx.states, "VIOLATION" if rc else "ok"))
